@@ -109,6 +109,10 @@ class ClassV:
         return None
 
 
+class StopExploration(Exception):
+    """enough obligations of this function have failed: the verdict is known, further paths only cost time."""
+
+
 class Builtin:
     """python-implemented primitive: fn(engine, *args, **kwargs)."""
 
@@ -323,6 +327,9 @@ class Engine:
                 run()
             except PathEnd:
                 pass
+            except StopExploration:
+                self.stopped_early = True
+                break
             d = self.decisions[:self.pos]
             while d and d[-1][0] == len(d[-1][1]) - 1:
                 d.pop()
@@ -431,7 +438,7 @@ class Engine:
             # portfolio: the incremental solver gave up; the same query in fresh (non-incremental) solvers with other
             # random seeds.  Only a few times per function: a genuinely failing function fails many obligations.
             self.n_portfolio = getattr(self, 'n_portfolio', 0) + 1
-            if self.n_portfolio <= 4:
+            if self.n_portfolio <= 3:
                 for seed in (1, 2):
                     s_ = z3.Solver()
                     s_.set('timeout', self.timeout_ms)
@@ -446,7 +453,7 @@ class Engine:
                         st, m, detail = 'sat', s_.model(), 'fresh solver, seed %d' % seed
                         break
             # small-scope retry: a model of pc /\ not cond with small containers is still a counterexample
-            for bound in ((1, 2, 3) if st == 'unknown' else ()):
+            for bound in ((1, 2, 3) if st == 'unknown' and self.n_portfolio <= 3 else ()):
                 r2, m2 = self.check(z3.Not(cond), *[z3.And(t >= -bound - 1, t <= bound) for t in self.size_terms],
                                     timeout=self.timeout_ms)
                 if r2 == z3.sat:
@@ -459,6 +466,10 @@ class Engine:
                            line=line, detail=detail)
         if st != 'unsat' and _os.environ.get('PYVC_DEBUG'):
             print('   [debug] %s %s on path %s (%.0f ms)' % (name, st, key[1], ms))
+        if st != 'unsat':
+            self.n_failed = getattr(self, 'n_failed', 0) + 1
+            if self.n_failed >= 8:
+                raise StopExploration()
         self.solver.add(cond)
 
     def model_str(self, m):
